@@ -24,7 +24,7 @@ func init() {
 			"sequentially (1 thread, run-to-block) and under the drawn schedule (in either order). Non-trivial: ≥ 2 worker goroutines each received ≥ 1 record and ≥ 1 context " +
 			"switch happened; distinct = distinct scheduler trace hashes (sequence of (goroutine, site, kind)) among those",
 		Gen: func(rt *rapid.T, tier string) any {
-			return genPipe(rt, tier, pipeGenOpts{algos: []string{"compare", "compareW", "fbp", "tbe"}, faults: true, minTax: 4, maxTax: 14, maxTrees: 10, rootedRef: true,
+			return genPipe(rt, tier, pipeGenOpts{algos: []string{"compare", "compareW", "fbp", "tbe"}, faults: true, minTax: 4, maxTax: 14, maxTrees: 14, rootedRef: true,
 				maxFaults: 5, zeroTrees: true, nexusFeed: true})
 		},
 		New:  func() any { return &PipeCase{} },
@@ -220,7 +220,7 @@ func init() {
 			"Non-trivial: ≥ 2 workers received work and ≥ 1 context switch; distinct = distinct scheduler trace hashes",
 		Gen: func(rt *rapid.T, tier string) any {
 			pc := genPipe(rt, tier, pipeGenOpts{algos: []string{"compare"}, faults: true, faultKinds: []string{"foreign", "missing", "extra", "duptip", "malformed"},
-				minTax: 4, maxTax: 12, maxTrees: 8, rootedRef: true, maxFaults: 5, zeroTrees: true})
+				minTax: 4, maxTax: 12, maxTrees: 13, rootedRef: true, maxFaults: 5, zeroTrees: true})
 			return &CliCase{Cmd: rapid.SampledFrom([]string{"compare", "compare-weighted", "fbp", "tbe", "tbe-taxa"}).Draw(rt, "cmd"), Ref: pc.Ref, Recs: pc.Recs,
 				Threads: rapid.SampledFrom([]int{2, 3, 4, 8}).Draw(rt, "threads"), Tips: pc.Tips, Binary: rapid.IntRange(0, 3).Draw(rt, "binary") == 0,
 				RF: rapid.IntRange(0, 3).Draw(rt, "rf") == 0, Sched: pc.Sched}
